@@ -60,8 +60,8 @@ theorem process_eq_descendOf {σ} (snap : Snap) (o : Opts) (st : ISt) (e : Entry
       | (some r, st', w') => (some r, st', w')
       | (none, st', w') =>
         if st.iters.length < o.minDepth then (none, st', w')
-        else if e.dir ∧ o.contentsFirst then (none, { st' with deferred := e :: st'.deferred }, w')
         else if (o.files ∧ !e.file) ∨ (!o.files ∧ o.dirs ∧ !e.dir) then (none, st', w')
+        else if e.dir ∧ o.contentsFirst then (none, { st' with deferred := e :: st'.deferred }, w')
         else (some (.ok e), st', w') := by
   unfold process descendOf
   rfl
